@@ -807,3 +807,100 @@ func RunSnap(n int, v [2]string) SnapEvent {
 	sort.Strings(ev.Got)
 	return ev
 }
+
+// ---------------------------------------------------------------------------
+// Two Gets of one network instance at the same time, nothing being written: Get A (one table) is read slowly; after its
+// first response Get B (another scope) is started and read to its end; then A is drained. Each returns exactly its scope.
+
+// TwoGetEvent is the record of one such scenario.
+type TwoGetEvent struct {
+	Ev     string   `json:"ev"`
+	N      int      `json:"n"`
+	WantA  []string `json:"wantA"`
+	WantB  []string `json:"wantB"`
+	GotA   []string `json:"gotA"`
+	GotB   []string `json:"gotB"`
+	Failed string   `json:"failed"`
+}
+
+// TwoGetVariants are the (scope of A, scope of B) pairs.
+var TwoGetVariants = [][2]spb.AFTType{{spb.AFTType_IPV4, spb.AFTType_NEXTHOP}, {spb.AFTType_IPV4, spb.AFTType_ALL}, {spb.AFTType_ALL, spb.AFTType_IPV6}, {spb.AFTType_NEXTHOP_GROUP, spb.AFTType_MPLS}}
+
+// RunTwoGets executes one scenario.
+func RunTwoGets(n int, v [2]spb.AFTType) TwoGetEvent {
+	ev := TwoGetEvent{Ev: "lintwoget", N: n, WantA: []string{}, WantB: []string{}, GotA: []string{}, GotB: []string{}}
+	r := rib.New("DEFAULT")
+	var id uint64
+	base := []string{"nh:1", "nh:2", "nh:3", "nh:4", "nhg:1", "nhg:2", "nhg:3", "v4:10.9.0.0/24", "v4:10.9.1.0/24", "v4:10.9.2.0/24", "v4:10.9.3.0/24",
+		"v6:2001:db8:9::/48", "v6:2001:db8:91::/48", "mpls:1009", "mpls:1010", "mpls:1011"}
+	for _, k := range base {
+		id++
+		if _, fails, err := r.AddEntry("DEFAULT", snapOp(id, k)); err != nil || len(fails) != 0 {
+			ev.Failed = fmt.Sprintf("initial install of %s failed: %v %d", k, err, len(fails))
+			return ev
+		}
+	}
+	scope := func(t spb.AFTType) []string {
+		pfx := map[spb.AFTType]string{spb.AFTType_IPV4: "v4:", spb.AFTType_IPV6: "v6:", spb.AFTType_MPLS: "mpls:", spb.AFTType_NEXTHOP_GROUP: "nhg:", spb.AFTType_NEXTHOP: "nh:"}[t]
+		out := []string{}
+		for _, k := range base {
+			if t == spb.AFTType_ALL || strings.HasPrefix(k, pfx) {
+				out = append(out, k)
+			}
+		}
+		sort.Strings(out)
+		return out
+	}
+	ev.WantA, ev.WantB = scope(v[0]), scope(v[1])
+	holder, _ := r.NetworkInstanceRIB("DEFAULT")
+	type get struct {
+		ch  chan *spb.GetResponse
+		fin chan error
+		got *[]string
+	}
+	start := func(t spb.AFTType, got *[]string) *get {
+		g := &get{ch: make(chan *spb.GetResponse), fin: make(chan error, 1), got: got}
+		go func() { g.fin <- holder.GetRIB(map[spb.AFTType]bool{t: true}, g.ch, make(chan struct{})) }()
+		return g
+	}
+	take := func(g *get) (bool, error) {
+		select {
+		case m := <-g.ch:
+			for _, e := range m.GetEntry() {
+				*g.got = append(*g.got, snapKey(e))
+			}
+			return true, nil
+		case err := <-g.fin:
+			return false, err
+		case <-time.After(15 * time.Second):
+			return false, fmt.Errorf("hang: a Get produced nothing for 15 s (blocked: %v)", blockedInRib())
+		}
+	}
+	a := start(v[0], &ev.GotA)
+	if ok, err := take(a); !ok {
+		ev.Failed = fmt.Sprintf("Get A ended before its first response: %v", err)
+		return ev
+	}
+	b := start(v[1], &ev.GotB)
+	for {
+		ok, err := take(b)
+		if !ok {
+			if err != nil {
+				ev.Failed = "Get B: " + err.Error()
+			}
+			break
+		}
+	}
+	for ev.Failed == "" {
+		ok, err := take(a)
+		if !ok {
+			if err != nil {
+				ev.Failed = "Get A: " + err.Error()
+			}
+			break
+		}
+	}
+	sort.Strings(ev.GotA)
+	sort.Strings(ev.GotB)
+	return ev
+}
